@@ -201,7 +201,10 @@ func (rc *realController) CalculateBatchContext(release *v1beta1.BatchRelease) (
 			currentSurge = intstr.FromInt(0)
 		}
 	}
-	desired, _ := intstr.GetScaledValueFromIntOrPercent(&desiredSurge, int(rc.Replicas), true)
+	// a CloneSet never runs more updated pods than replicas, however large maxSurge is: clamp the
+	// target to [0, replicas] as the other control planes do, otherwise an integer step above the
+	// workload size can never become ready.
+	desired := control.CalculateBatchReplicas(release, int(rc.Replicas), int(currentBatch))
 
 	batchContext := &batchcontext.BatchContext{
 		Pods:           rc.pods,
